@@ -264,8 +264,24 @@ func nodeCalls(fset *token.FileSet, n ast.Node, sub string) bool {
 		case *ast.FuncLit, *ast.BlockStmt:
 			return false
 		case *ast.CallExpr:
+			// the call's own text: function expression and arguments, function
+			// literals elided (their bodies are other statements)
 			var b bytes.Buffer
-			format.Node(&b, fset, c)
+			if _, lit := c.Fun.(*ast.FuncLit); !lit {
+				format.Node(&b, fset, c.Fun)
+			}
+			b.WriteByte('(')
+			for i, a := range c.Args {
+				if i > 0 {
+					b.WriteString(", ")
+				}
+				if _, lit := a.(*ast.FuncLit); lit {
+					b.WriteString("func")
+					continue
+				}
+				format.Node(&b, fset, a)
+			}
+			b.WriteByte(')')
 			if strings.Contains(b.String(), sub) {
 				found = true
 			}
